@@ -95,6 +95,25 @@ CLAIMED["C13"] = dict(
     note=FS_NOTE,
 )
 
+CLAIMED["C06"] = dict(
+    engine="symx",
+    technique="assume-guarantee: per-holder lock protocol decided by symbolic execution of the real lockedfile/filelock code (flag word and syscall results symbolic, z3), kernel flock contract assumed",
+    text=("The property quantifies over processes; what the code contributes is the per-holder protocol, and that is decided on the real code for every flag word and every scripted flock outcome: "
+          "exclusive lock iff the access mode writes, lock taken on the opened descriptor before any content access (O_TRUNC is applied under the lock), a File is returned iff the lock was granted and is still held, "
+          "error paths close the descriptor, Close unlocks that descriptor exactly once strictly before closing it, every entry point takes the documented lock. Exclusion then follows from the flock(2) contract."),
+    design_ref="DESIGN.md §4 C06",
+    note=FS_NOTE,
+)
+CLAIMED["C07"] = dict(
+    engine="symx",
+    technique="symbolic execution of lockedfile.Read/Write/Transform over a file model with symbolic contents, short reads and a solver-chosen failing operation; serialisation by C06 (assume-guarantee)",
+    text=("Read returns exactly the contents under arbitrary short reads; Write and Transform publish exactly the new contents for every old/new length relation; Transform sees the latest contents; "
+          "with a failure injected at any file operation it performs (a failing WriteAt having written any prefix) or in the user function, the previous contents remain and the error is returned. "
+          "Concurrent linearizability is the composition of this with C06's exclusion (stated two-phase-locking argument)."),
+    design_ref="DESIGN.md §4 C07",
+    note=FS_NOTE,
+)
+
 NOT_APPLICABLE = {
     "C20": "goproxytest's behaviour lives in net/http, archive/zip+flate, encoding/json (reflection) and directory walks; none is encodable by the SSA symbolic executor, and with them stubbed nothing solver-relevant remains (its once-per-key ingredient is par.Cache = C10)",
 }
